@@ -8,7 +8,7 @@ from ..build import AnalysisBroken
 from ..callgraph import CallGraph
 from ..effects import Effects
 from ..model import access_mode
-from ..affine import lin
+from ..affine import lin, Lin
 from ..util import site, member_accesses, const_value, local_defs
 
 
@@ -280,11 +280,17 @@ def r10d(ck, prog):
             lp = loops[0]
             bt = (lp.child("init").text() if lp.child("init") is not None else "") + (lp.child("cond").text() if lp.child("cond") is not None else "")
         from ..affine import loop_range
-        rng = loop_range(loops[0]) if loops else None
+        from ..affine import single_defs
+        subst = single_defs(D)
+        rng = loop_range(loops[0], subst) if loops else None
         if rng is None:
             raise AnalysisBroken("R10d: the member copy loop at %s is not one of the recognised counting idioms" % s.loc)
         var, lo, hi = rng
-        if not (lo.is_const() and lo.c == 0 and hi.c == 0 and hi.t == {"msa->nsip[%s]" % child: 1}) or j.text() != var:
+        jl = lin(j, subst)
+        idx_ok = jl is not None and ((jl.t == {var: 1} and jl.c == 0) or
+                                     (jl.t.get(var) == -1 and jl.add(Lin(0, {var: 1})).add(hi, -1).is_const() and
+                                      jl.add(Lin(0, {var: 1})).add(hi, -1).c == -1))
+        if not (lo.is_const() and lo.c == 0 and hi.c == 0 and hi.t == {"msa->nsip[%s]" % child: 1}) or not idx_ok:
             ck.violation("R10d", "R10d/do_align/coverage-%s" % child, where,
                          "members [%s, %s) of child %s are copied instead of all [0, nsip[%s])" % (lo, hi, child, child), prog.config)
         srcs.append(child)
@@ -299,7 +305,8 @@ def r10d(ck, prog):
     found = False
     for s in D.body.find("BinaryOperator"):
         if s.d["op"] == "=" and "nsip[" in s.kids[0].text() and s.kids[0].strip().k == "ArraySubscriptExpr":
-            l = lin(s.kids[1])
+            from ..affine import single_defs
+            l = lin(s.kids[1], single_defs(D))
             where = site(prog, s, "nsip")
             ck.inst("R10d", where, "do_align: %s = %s" % (s.kids[0].text(), s.kids[1].text()), prog.config)
             found = True
